@@ -841,6 +841,7 @@ class Processor:
                             for (key, val) in merge_node.items():
                                 if key in parent and parent[key] == val:
                                     del parent[key]
+                                    Processor._refresh_inheritors(parent, key)
                             del parent.merge[midx]
                             break
                 elif parentref in parent:
@@ -852,6 +853,7 @@ class Processor:
                         if parentref in merge_node:
                             parent.update_key_value(parentref)
                             break
+                    Processor._refresh_inheritors(parent, parentref)
             elif isinstance(parent, (CommentedSeq, list)):
                 if len(parent) > parentref:
                     del parent[parentref]
@@ -2526,8 +2528,8 @@ class Processor:
                     next_coord.node = Nodes.build_next_node(
                         yaml_path, depth + 1, value)
                     next_coord.parent[next_coord.parentref] = next_coord.node
-                    for referer in getattr(next_coord.parent, "_ref", []):
-                        referer.update_key_value(next_coord.parentref)
+                    Processor._refresh_inheritors(
+                        next_coord.parent, next_coord.parentref)
 
                 if next_coord.node is None:
                     self.logger.debug((
@@ -2664,8 +2666,7 @@ class Processor:
                         data[stripped_attrs] = Nodes.build_next_node(
                             yaml_path, depth + 1, value
                         )
-                        for referer in getattr(data, "_ref", []):
-                            referer.update_key_value(stripped_attrs)
+                        Processor._refresh_inheritors(data, stripped_attrs)
                         next_translated_path = (
                             translated_path + YAMLPath.escape_path_section(
                                 str(stripped_attrs),
@@ -2733,6 +2734,27 @@ class Processor:
                 relay_segment)
 
     # pylint: disable=too-many-arguments
+    @staticmethod
+    def _refresh_inheritors(source: Any, key: Any) -> None:
+        """
+        Show a changed key to every Hash which inherits it.
+
+        Hashes which merge `source` through a YAML Merge Key hold their own
+        view of its keys, as do Hashes which merge those Hashes in turn.
+
+        Parameters:
+        1. source (Any) The Hash in which `key` was set or created
+        2. key (Any) The key to refresh in every inheriting Hash
+
+        Returns:  N/A
+        """
+        for referer in getattr(source, "_ref", []):
+            if key in referer or any(
+                key in merge_node for (_, merge_node) in referer.merge
+            ):
+                referer.update_key_value(key)
+            Processor._refresh_inheritors(referer, key)
+
     def _update_node(
         self, parent: Any, parentref: Any, value: Any,
         value_format: YAMLValueFormats, value_tag: Union[str, None] = None
@@ -2781,8 +2803,7 @@ class Processor:
 
                             # Hashes which inherit this key through a YAML
                             # Merge Key must see the new value, too
-                            for referer in getattr(data, "_ref", []):
-                                referer.update_key_value(k)
+                            Processor._refresh_inheritors(data, k)
                     else:
                         recurse(val, parent, parentref, reference_node,
                                 replacement_node)
@@ -2873,6 +2894,7 @@ class Processor:
                         for key, _ in parent.non_merged_items())
         ):
             parent[parentref] = new_node
+            Processor._refresh_inheritors(parent, parentref)
 
         self.logger.debug(
             "Parent after change:", prefix="Processor::_update_node:  ",
